@@ -35,6 +35,24 @@ type Op struct {
 	Scope  []string              `json:"scope,omitempty"`
 	N      int                   `json:"n,omitempty"`
 	Lo     bool                  `json:"lo,omitempty"`
+	Kind   string                `json:"kind,omitempty"` // create: "" | proxy | virtual
+}
+
+// settings of the proxy / virtual datasets the machine creates (nothing ever talks to the remote:
+// such datasets are only catalogued; port 9 refuses connections at once)
+const (
+	gmProxyURL  = "http://127.0.0.1:9/datasets/remote"
+	gmVirtualJS = "ZnVuY3Rpb24gYnVpbGRfZW50aXRpZXMocGFyYW1zLCBzaW5jZSwgZW1pdCkgeyByZXR1cm4gc2luY2U7IH0="
+)
+
+func gmCreateConfig(kind string) *server.CreateDatasetConfig {
+	switch kind {
+	case "proxy":
+		return &server.CreateDatasetConfig{ProxyDatasetConfig: &server.ProxyDatasetConfig{RemoteURL: gmProxyURL, TimeoutSeconds: 1}}
+	case "virtual":
+		return &server.CreateDatasetConfig{VirtualDatasetConfig: &server.VirtualDatasetConfig{Transform: gmVirtualJS}}
+	}
+	return nil
 }
 
 // gm is the graph machine: a hub, the reference model and the history.
@@ -167,12 +185,20 @@ func execOp(h *WHub, op Op) error {
 		}
 	case "create":
 		if op.Via == "http" {
-			if code, body := h.Do("POST", "/datasets/"+op.Name, "", nil); code != 200 {
-				return fmt.Errorf("POST /datasets/%s -> %d %s", op.Name, code, body)
+			path, reqBody := "/datasets/"+op.Name, ""
+			if cfg := gmCreateConfig(op.Kind); cfg != nil {
+				b, _ := json.Marshal(cfg)
+				reqBody = string(b)
+				if op.Kind == "proxy" {
+					path += "?proxy=true"
+				}
+			}
+			if code, body := h.Do("POST", path, reqBody, nil); code != 200 {
+				return fmt.Errorf("POST %s -> %d %s", path, code, body)
 			}
 			return nil
 		}
-		if _, err := h.Dsm.CreateDataset(op.Name, nil); err != nil {
+		if _, err := h.Dsm.CreateDataset(op.Name, gmCreateConfig(op.Kind)); err != nil {
 			return fmt.Errorf("CreateDataset(%s): %w", op.Name, err)
 		}
 	case "delete":
@@ -455,7 +481,11 @@ func (g *gm) applyCreate(op Op) {
 	if g.m.EverName[op.Name] {
 		g.cls["re-create"] = true
 	}
-	g.m.Create(op.Name)
+	md := g.m.Create(op.Name)
+	md.Proxy, md.Virtual = op.Kind == "proxy", op.Kind == "virtual"
+	if op.Kind != "" {
+		g.cls["create-"+op.Kind] = true
+	}
 	if g.h == nil {
 		return
 	}
